@@ -7,7 +7,6 @@ package c16
 import (
 	"bufio"
 	"encoding/json"
-	"flag"
 	"fmt"
 	"os"
 	"os/exec"
@@ -15,7 +14,6 @@ import (
 	"regexp"
 	"runtime"
 	"sort"
-	"strconv"
 	"strings"
 	"sync"
 	"sync/atomic"
@@ -37,18 +35,7 @@ var rec = hx.NewRecorder("C16",
 	"a merge that neither completes nor logs a failure within 75 s ends the run inconclusive, not as a violation",
 )
 
-// TestMain spreads the rapid seeds of the shards: rapid derives the seed of case i as
-// base + i(i+1)/2, and the driver's shard bases are consecutive integers, so without this the shards
-// would mostly repeat each other's cases.
-func TestMain(m *testing.M) {
-	flag.Parse()
-	if f := flag.Lookup("rapid.seed"); f != nil {
-		if base, err := strconv.ParseUint(f.Value.String(), 10, 64); err == nil && base != 0 && base < 1<<32 {
-			_ = flag.Set("rapid.seed", strconv.FormatUint(base*2_000_000_011+17, 10))
-		}
-	}
-	hx.Main(m)
-}
+func TestMain(m *testing.M) { hx.Main(m) }
 
 // Outcome is what the child process reports for one case.
 type Outcome struct {
